@@ -114,6 +114,7 @@ static void b_setopt_str(unsigned n)
 	{
 		const char *src = hascb ? (g_pcb_ret == 0 ? g_pcb_str : NULL) : (nulltext ? NULL : text);
 		CHECK("C14,C09", src != NULL || r == NULL, "string option: no text (or a failing / empty-handed callback) fails the assignment");
+		if (src == NULL && n == 1 && !APPENDS(n)) CHECK("C10", o.values[0]->string == olds && o.nvalues == 1 && o.flags == s.flags, "string option: an assignment refused for lack of a text leaves the value it held in place");
 		if (r) {
 			CHECK("C01,C16", r->string != NULL && r->string != src && strcmp(r->string, src) == 0, "string option: the slot holds a private copy of the text");
 			CHECK("C01,C09", APPENDS(n) ? (o.nvalues == ((k_flags & CFGF_RESET) ? 1 : n + 1) && r == o.values[o.nvalues - 1]) : (o.nvalues == n && r == o.values[0]),
